@@ -166,7 +166,11 @@ CLAIMED = {
          "not_implemented() when it is affirmative (three syntactic shapes) evaluates to 'not implemented' on EVERY store in which the gate is "
          "true; per year C09_every_reader_refuses_<y>: for 27 of the 40 frozen gates (22 of 34 in 2021) EVERY line of the regenerated "
          "catalogue that reads the gate has such a shape (reflective check over the regenerated bodies), so whichever line consults the gate, "
-         "on whatever store, the solve cannot succeed. The list of gates covered on the baseline is frozen (oracles/c09_static_gates.json): one "
+         "on whatever store, the solve cannot succeed. StoreMono.line_value_mono - store monotonicity of the WHOLE line interpreter (a value or a refusal "
+         "survives every enlargement of the value store, the input store and the set of participating forms; mutual induction over eval/exec) - gives "
+         "C09_refusal_on_every_store_<y>: for 64 of the 86 (reader, gate) pairs of singleton forms (50 of 68 in 2021) the refusal computed in the kernel on the "
+         "store holding only the affirmative gate holds on EVERY store, whatever the shape of the reader (helper functions, statements before the gate); this "
+         "adds 1040.pensions_annuities_adjustments and proves the 'consulted first' class that was argued before. The list of gates covered on the baseline is frozen (oracles/c09_static_gates.json): one "
          "that drops out is reported, with a real return that answers yes and still solves when one is found. The remaining 13 gates "
          "(read after other reads, inside helper functions, or conditional by design - marked in the oracle) and the numeric limits (foreign tax "
          "over the Form 1116 threshold, more payers than Schedule B rows, HSA contributions over the limit with and without employer money) are "
@@ -176,7 +180,7 @@ CLAIMED = {
     note="Partial: 10-12 of the 36-42 gates per year and the numeric limits rest on exploration only. The gate oracle (oracles/gates_<year>.json) was proposed from the "
          "tree as first built, reviewed against the input descriptions, frozen; three entries are marked conditional and one wrong entry was removed "
          "(DESIGN.md §13.6). Print Assumptions: closed under the global context.",
-    technique='Rocq: C01 + gate_sound (every store) + reflective shape check of every reading line; flipped-gate exploration on the real solver for the rest',
+    technique='Rocq: C01 + gate_sound (every store) + reflective shape check of every reading line + store monotonicity of the interpreter (line_value_mono) lifting kernel-evaluated refusals to every store; flipped-gate exploration on the real solver for the rest',
  ),
  'C08': dict(
     category='proof',
@@ -325,10 +329,12 @@ CLAIMED = {
     text="Rocq theorem C03_solution_fixed_point: in every completed run of the solver model (solved or not), each stored value equals what its "
          "line definition yields on the final input/value stores - for every catalogue, request, rank (attempt order) and answer function. "
          "Invariant i_sound preserved by every primitive move (value stored, wait registered, specs loaded, prompt answered, drains), using "
-         "monotonicity of reader programs. Tie: model vs real solver traces; monitor re-evaluates every stored line of real runs.",
+         "monotonicity of reader programs. Layer B: C03_value_survives_larger_store (StoreMono.line_value_mono) - for the regenerated line bodies themselves, "
+         "the value a line yielded when attempted is the value of its definition on every larger store (more lines, inputs, forms), so the reader-program "
+         "monotonicity the kernel theorem assumes is proved of the interpreter that runs the real definitions. Tie: model vs real solver traces; monitor re-evaluates every stored line of real runs.",
     design_ref='DESIGN.md §3, §4 C03',
     note="Trusted as for C01. Print Assumptions: closed under the global context.",
-    technique='Rocq inductive invariant (run_mono) over the concrete solver model + differential correspondence',
+    technique='Rocq inductive invariant (run_mono) over the concrete solver model + store monotonicity of the line interpreter (mutual induction) + differential correspondence',
  ),
  'C07': dict(
     category='proof',
